@@ -9,7 +9,14 @@ from inspect import isclass
 import numpy as np
 from .struct import Struct
 from .typeutils import context_default
-from .ref import Ref
+from .ref import Ref, UnionRef
+
+
+def _is_reference_type(ftype):
+    """Ref[...] instances and UnionRef classes: fields that denote an object"""
+    return isinstance(ftype, Ref) or (
+        isclass(ftype) and issubclass(ftype, UnionRef)
+    )
 
 
 class _FieldOfDressed:
@@ -21,7 +28,7 @@ class _FieldOfDressed:
         fnames = [ff.name for ff in _XoStruct._fields]
         if self.name in fnames:
             ftype = getattr(_XoStruct, self.name).ftype
-            self.isref = isinstance(ftype, Ref)
+            self.isref = _is_reference_type(ftype)
             if hasattr(ftype, "_itemtype"):  # is xo object
                 if hasattr(ftype._itemtype, "_dtype"):  # valid nplike object
                     self.isnplikearray = True
@@ -54,8 +61,8 @@ class _FieldOfDressed:
         if self.isnplikearray:
             self.__get__(container=container)[:] = value
         elif hasattr(value, "_xobject"):  # value is a dressed xobject
-            is_ref = isinstance(
-                getattr(container._XoStruct, self.name).ftype, Ref
+            is_ref = _is_reference_type(
+                getattr(container._XoStruct, self.name).ftype
             )
             if is_ref and value._buffer is not container._buffer:
                 raise MemoryError(
@@ -101,8 +108,8 @@ class _FieldOfDressed:
         else:
             self.content = None
             setattr(container._xobject, self.name, value)
-            if isinstance(
-                getattr(container._XoStruct, self.name).ftype, Ref
+            if _is_reference_type(
+                getattr(container._XoStruct, self.name).ftype
             ) and hasattr(container, "_dressed_" + self.name):
                 # the reference was rebound (or nulled): the dressed object
                 # kept from an earlier assignment is not what it denotes
